@@ -909,8 +909,12 @@ time_zone::absolute_lookup TimeZoneInfo::BreakTime(
       const std::int_fast64_t diff =
           unix_time - transitions_[timecnt - 1].unix_time;
       const year_t shift = diff / kSecsPer400Years + 1;
-      const auto d = seconds(shift * kSecsPer400Years);
-      time_zone::absolute_lookup al = BreakTime(tp - d);
+      // Note: (shift * kSecsPer400Years) can exceed the seconds range when
+      // the last transition is early, so step back from that transition by
+      // way of the remainder: tp - shift*C == last + (diff % C) - C.
+      const auto d = seconds(diff % kSecsPer400Years - kSecsPer400Years);
+      time_zone::absolute_lookup al = BreakTime(
+          FromUnixSeconds(transitions_[timecnt - 1].unix_time) + d);
       al.cs = YearShift(al.cs, shift * 400);
       return al;
     }
